@@ -385,6 +385,13 @@ pub fn init<T: Gen>(ev: u32) -> T {
     gen_value::<T>(ev, occ, fail, 0)
 }
 
+/// initial value written as a zero-argument call whose CALLEE is itself a call: `w::init_fn::<T>(e)()`. The event (and the
+/// value) belong to the evaluation of the callee expression; calling the result is silent.
+pub fn init_fn<T: Gen>(ev: u32) -> impl FnOnce() -> T {
+    let v = init::<T>(ev);
+    move || v
+}
+
 // ------------------------------------------------------------------------------------------
 // callbacks
 // ------------------------------------------------------------------------------------------
@@ -563,6 +570,13 @@ pub fn snap<X: Val>(ev: u32, x: &X) {
 /// snapshot through a mutable borrow: the name must have been declared `let mut`
 pub fn snap_m<X: Val>(ev: u32, x: &mut X) {
     event(ev, x.dg());
+    // ... and MUTATES the named value in place (stamped with the capture's event): whoever reads the name or the branch's value
+    // later — the branch's next step, a later capture, the macro's result — must see this one value, not a copy taken earlier
+    // (`stamp` cannot panic and creates no token, so the read / write pair is a plain in-place update)
+    unsafe {
+        let v = std::ptr::read(x);
+        std::ptr::write(x, v.stamp(ev));
+    }
 }
 /// fold a list of digests
 pub fn dgs(ds: &[u64]) -> u64 {
@@ -815,6 +829,26 @@ impl_tuples! {
     (A 0, B 1, C 2, D 3)
     (A 0, B 1, C 2, D 3, E 4)
     (A 0, B 1, C 2, D 3, E 4, F 5)
+}
+/// tuples of zero-argument closures (what `lazy_branches(true)` hands to the joiner): call them in order
+pub trait CallAll {
+    type Out;
+    fn call_all(self) -> Self::Out;
+}
+macro_rules! impl_call_all {
+    ($( ($($n:ident $r:ident $i:tt),+) )+) => {$(
+        impl<$($r, $n: FnOnce() -> $r),+> CallAll for ($($n,)+) {
+            type Out = ($($r,)+);
+            fn call_all(self) -> Self::Out { ($( (self.$i)(), )+) }
+        }
+    )+};
+}
+impl_call_all! {
+    (A RA 0, B RB 1)
+    (A RA 0, B RB 1, C RC 2)
+    (A RA 0, B RB 1, C RC 2, D RD 3)
+    (A RA 0, B RB 1, C RC 2, D RD 3, E RE 4)
+    (A RA 0, B RB 1, C RC 2, D RD 3, E RE 4, F RF 5)
 }
 pub fn jst<T: JsTuple>(ev: u32, t: T) -> T {
     t.jst(ev)
